@@ -14,7 +14,7 @@ use mithril_common::protocol::SignerBuilder;
 use mithril_common::test::builder::{MithrilFixtureBuilder, StakeDistributionGenerationMethod};
 use mithril_stm::*;
 use rand_chacha::ChaCha20Rng;
-use rand_core::RngCore;
+use rand_core::{RngCore, SeedableRng};
 use serde_json::json;
 use vcore::rnd;
 use vcore::{catch, Monitor};
@@ -200,6 +200,71 @@ pub fn run_stm_level(shard: u64, mon: &mut Monitor, sets: u64) {
                 Err(pn) => mon.violation("C06 registration panics", &pn, json!({"set": set_key(&regs), "order": p})),
             }
             mon.nontrivial_str(&format!("{}|{:?}", set_key(&regs), p));
+        }
+        // registration histories with REJECTED attempts in between: a key that is already
+        // registered is offered again (same stake, another stake); the registration refuses it, so
+        // the registered set is unchanged and so must be the key, the total stake and the slots
+        for _ in 0..3 {
+            let mut order: Vec<usize> = (0..n).collect();
+            rnd::shuffle(&mut rng, &mut order);
+            let attempts = 1 + rnd::usize_below(&mut rng, 3);
+            mon.eval();
+            let r = catch(|| -> Result<(Obs, u64, u64), String> {
+                let mut kr = KeyRegistration::initialize();
+                let (mut refused, mut taken) = (0u64, 0u64);
+                let mut done: Vec<usize> = vec![];
+                let mut rng2 = ChaCha20Rng::seed_from_u64(kind ^ order[0] as u64);
+                for &i in &order {
+                    let e = RegistrationEntry::new(regs[i].vkpop, regs[i].stake).map_err(|e| format!("{e}"))?;
+                    kr.register_by_entry(&e).map_err(|e| format!("{e}"))?;
+                    done.push(i);
+                    for _ in 0..attempts {
+                        if rnd::chance(&mut rng2, 1, 2) {
+                            let j = *rnd::pick(&mut rng2, &done);
+                            let stake = match rnd::below(&mut rng2, 3) {
+                                0 => regs[j].stake,
+                                1 => regs[j].stake.saturating_add(1 + rnd::below(&mut rng2, 1000)),
+                                _ => 1 + rnd::below(&mut rng2, 1 << 40),
+                            };
+                            let again = RegistrationEntry::new(regs[j].vkpop, stake).map_err(|e| format!("{e}"))?;
+                            match kr.register_by_entry(&again) {
+                                Err(_) => refused += 1,
+                                Ok(_) => taken += 1,
+                            }
+                        }
+                    }
+                }
+                let closed = kr.close_registration(&params).map_err(|e| format!("{e}"))?;
+                let clerk: Clerk<D> = Clerk::new_clerk_from_closed_key_registration(&params, &closed);
+                let avk = clerk.compute_aggregate_verification_key();
+                let mut slots: Vec<(String, u64)> = closed
+                    .closed_registration_entries
+                    .iter()
+                    .enumerate()
+                    .map(|(i, e)| (vcore::hex(&e.get_verification_key_for_concatenation().to_bytes()), i as u64))
+                    .collect();
+                slots.sort();
+                Ok((Obs { avk_bytes: avk_bytes(&avk), total: avk.to_concatenation_aggregate_verification_key().get_total_stake(), slots }, refused, taken))
+            });
+            match r {
+                Ok(Ok((o, refused, taken))) => {
+                    mon.count_n("rejected_attempts:refused", refused);
+                    mon.count_n("rejected_attempts:taken(not judged)", taken);
+                    if taken == 0 && refused > 0 {
+                        mon.nontrivial_str(&format!("{}|rejected|{:?}|{attempts}", set_key(&regs), order));
+                        if o != base {
+                            let what = if o.total != base.total { "total stake" } else if o.avk_bytes != base.avk_bytes { "aggregate key" } else { "signer slots" };
+                            mon.violation(
+                                &format!("C06 {what} depends on refused registration attempts"),
+                                &format!("{what} differs between a history with {refused} refused re-registration attempt(s) of already registered keys and the plain registration of the same set (total stake {} vs {})", o.total, base.total),
+                                json!({"set": set_key(&regs), "order": order, "base_avk": vcore::hex(&base.avk_bytes), "other_avk": vcore::hex(&o.avk_bytes), "base_total": base.total, "other_total": o.total}),
+                            );
+                        }
+                    }
+                }
+                Ok(Err(e)) => mon.count(&format!("rejected_attempts:history_failed:{}", e.chars().take(40).collect::<String>())),
+                Err(pn) => mon.violation("C06 registration panics", &pn, json!({"set": set_key(&regs), "order": order, "with": "refused attempts"})),
+            }
         }
         // the key does not depend on the other protocol parameters (k, m) - only phi_f may enter
         // through closing (it does not for the concatenation key); same set, other k/m => same key
